@@ -35,6 +35,7 @@ TraceNext ==
   /\ LET e == Ev IN
      /\ \/ e.op = "make" /\ Make(e.a)
         \/ e.op = "copy" /\ CopyTo(e.a, e.b, e.c, e.rc, e.state[e.b].edges)
+        \/ e.op = "copyall" /\ CopyAllTo(e.a, e.c, e.rc, [l \in {k \in Locs \ {e.a} : ~store[k].present} |-> e.state[l].edges])
         \/ e.op = "rewrite" /\ RewriteTo(e.a, e.b, e.c, e.rc, e.state[e.b].edges)
         \/ e.op = "load" /\ Load(e.a) /\ e.loaded = [i \in 1..NR |-> i] /\ e.contig
      /\ Match(e)
